@@ -121,6 +121,22 @@ func ruleQRFormulas(c *Ctx) {
 					continue
 				}
 				got, ok := n.Norm(ret.Results[0]).IsConst()
+				if !ok {
+					// the widths kept in a package-level table: read it at this mode and version class
+					mp := fn.Params[1]
+					delete(n.Bind, mp)
+					n.env = append(n.env, map[ssa.Value]Poly{mp: pConst(mode)})
+					savedFold := n.FoldTables
+					n.FoldTables = true
+					for _, cs := range n.valueCases(fn, nil, ret.Results[0], 0) {
+						if k, isC := cs.val.IsConst(); isC && evalCond(cs.cond, map[string]int64{"m": mode, "vi.Version": v}, nil) {
+							got, ok = k, true
+						}
+					}
+					n.FoldTables = savedFold
+					n.env = n.env[:len(n.env)-1]
+					n.Bind[mp] = "m"
+				}
 				c.Check(R8, key, ret.Pos(), ok && got == iso[mode][cls], fmt.Sprint(iso[mode][cls]), n.Norm(ret.Results[0]).String())
 			}
 		}
@@ -227,7 +243,32 @@ func ruleQRFormulas(c *Ctx) {
 		got := map[string]ssa.Instruction{}
 		var fmtVal ssa.Value
 		n.FoldTables = true
+		// the module writes may sit in an unexported helper that receives the word and the callback
+		placeFn := fn
+		direct := false
 		eachInstr(fn, func(b *ssa.BasicBlock, ins ssa.Instruction) {
+			if call, ok := ins.(*ssa.Call); ok && call.Common().Value == ssa.Value(setP) {
+				direct = true
+			}
+		})
+		if !direct {
+			eachInstr(fn, func(b *ssa.BasicBlock, ins ssa.Instruction) {
+				call, ok := ins.(*ssa.Call)
+				if !ok || calleeOf(call) == nil || !isRepoFunc(calleeOf(call)) || calleeOf(call).Blocks == nil || placeFn != fn {
+					return
+				}
+				for i, a := range call.Common().Args {
+					if a == ssa.Value(setP) && i < len(calleeOf(call).Params) {
+						placeFn = calleeOf(call)
+						setP = placeFn.Params[i]
+						n.Bind[setP] = "set"
+						n.Ctx = append(append([]ssa.CallInstruction{}, n.Ctx...), call)
+						c.Fn(c.P.FuncName(placeFn))
+					}
+				}
+			})
+		}
+		eachInstr(placeFn, func(b *ssa.BasicBlock, ins ssa.Instruction) {
 			call, ok := ins.(*ssa.Call)
 			if !ok || call.Common().Value != ssa.Value(setP) {
 				return
@@ -278,13 +319,24 @@ func ruleQRFormulas(c *Ctx) {
 			found := false
 			for _, e := range phi.Edges {
 				s := n.Norm(e).asAtom()
-				if s == "idx(idx(global:qr.formatInfos,vi.Level),mask)" {
+				if s == "idx(idx(global:qr.formatInfos,vi.Level),mask)" || s == "global:qr.formatInfos[vi.Level][mask]" || s == "idx(global:qr.formatInfos[vi.Level],mask)" || s == "idx(global:qr.formatInfos,vi.Level)[mask]" {
 					found = true
 				}
 			}
 			c.Check("C12-QR-LEVEL", "qr.drawFormatInfo/word", phi.Pos(), found, "formatInfos[vi.Level][usedMask]", fmt.Sprint(phi.Edges))
 		} else if fmtVal != nil {
-			c.Check("C12-QR-LEVEL", "qr.drawFormatInfo/word", fmtVal.Pos(), false, "formatInfos[vi.Level][usedMask] selected unless mask == -1", n.Norm(fmtVal).String())
+			// no special case in this function (the occupancy pass is a function of its own): the word is
+			// the table entry itself
+			s := canonAccess(n.Norm(fmtVal).asAtom())
+			if _, isP := fmtVal.(*ssa.Parameter); isP {
+				for _, p := range fn.Params {
+					if isIntType(p.Type()) {
+						n.Bind[p] = "mask"
+					}
+				}
+				s = canonAccess(n.Norm(fmtVal).asAtom())
+			}
+			c.Check("C12-QR-LEVEL", "qr.drawFormatInfo/word", fmtVal.Pos(), s == "global:qr.formatInfos[vi.Level][mask]", "formatInfos[vi.Level][usedMask] selected unless mask == -1", s)
 		}
 	}
 	if fn := c.theFunc(R7, "qr.drawVersionInfo"); fn != nil {
